@@ -321,12 +321,30 @@ func runC14(tb report.TB, rep *report.Reporter, c c14Case) {
 			if err != nil {
 				return "", err
 			}
+			if c.Seed%4 < 2 {
+				// an earlier run left its cache files: this one loads them and reads entities when they are first used
+				if pre, err := cache.NewRepoCacheNoEvents(r2); err == nil {
+					_ = pre.Close()
+					_ = r2.Close()
+					if r2, err = repository.OpenGoGitRepo(main, "git-bug", nil); err != nil {
+						return "", err
+					}
+				}
+			}
 			rc, err := cache.NewRepoCacheNoEvents(r2)
 			if err != nil {
 				return "", err
 			}
 			defer rc.Close()
 			lateRemote(r2)
+			if c.Seed%2 == 0 {
+				// the entity was looked at in this session before it is removed
+				if c.Entity == "bug" {
+					_, _ = rc.Bugs().Resolve(entity.Id(victimId))
+				} else {
+					_, _ = rc.Identities().Resolve(entity.Id(victimId))
+				}
+			}
 			// the shortest prefix that is unique
 			var err2 error
 			if c.Entity == "bug" {
@@ -418,6 +436,26 @@ func runC14(tb report.TB, rep *report.Reporter, c c14Case) {
 	liveFailed := false
 	liveLookups = func(live *cache.RepoCache) {
 		liveFailed = lookups("the cache that performed the removal", live) || liveFailed
+		if liveFailed {
+			return
+		}
+		// the session goes on: more entities are opened than the cache keeps in memory, so the eviction walks over
+		// everything that was ever loaded, the removed entity included
+		func() {
+			defer func() {
+				if rcv := recover(); rcv != nil {
+					liveFailed = fail("session-after-the-removal-panics/"+Normalize(fmt.Sprint(rcv)), fmt.Sprintf("after the removal, with a cache size of 1, resolving the other entities: %v\n%s", rcv, PanicSite(allGoroutines()))) || true
+				}
+			}()
+			live.Bugs().SetCacheSize(1)
+			live.Identities().SetCacheSize(1)
+			for _, id := range live.Bugs().AllIds() {
+				_, _ = live.Bugs().Resolve(id)
+			}
+			for _, id := range live.Identities().AllIds() {
+				_, _ = live.Identities().Resolve(id)
+			}
+		}()
 	}
 	if _, err := remove(); err != nil {
 		if fail("removal-fails/"+Normalize(err.Error()), err.Error()) {
